@@ -5,6 +5,15 @@ B = "graphql.language.block_string"
 
 def install(w):
     w.define("WS", "c", "c == 32 or c == 9")
+    # WhiteSpace of the spec is space and tab only: the common indentation of BlockStringValue counts
+    # exactly the maximal run of those at the start of a line
+    w.contract(f"{B}.leading_white_space", params={"s": "str"}, returns="int",
+               ensures=["0 <= result <= len(s)",
+                        "forall(i, 0, result, WS(cp(s, i)))",
+                        "result == len(s) or not WS(cp(s, result))"],
+               raises=[], modifies=[],
+               loops={1: {"invariant": ["i == _i", "forall(k, 0, _i, WS(cp(s, k)))"]}},
+               props={"C08", "C09"})
     # decisions of print_block_string that a print -> lex round trip needs (stated over the
     # function's own line split, which the regex model ties to the lexer's line terminators):
     w.contract(f"{B}.print_block_string", params={"value": "str", "minimize": "bool"},
